@@ -129,6 +129,22 @@ def cmp_const_switches(body, value=0):
             out.append((i, t_t, f_t, x))
         else:
             out.append((i, f_t, t_t, x))
+    # `match x { VALUE => .., _ => .. }`: SwitchInt on the integer itself
+    for i in sorted(ba.live):
+        t = body.blocks[i]["term"]
+        if t["t"] != "switch" or t["discr_ty"] in ("bool", "isize") or "enum" in t:
+            continue
+        if not re.fullmatch(r"[iu](8|16|32|64|128|size)", t["discr_ty"]):
+            continue
+        arms = {v: tg for v, tg in t["arms"]}
+        if value in arms and len(arms) == 1:
+            x = op_local(t["discr"])
+            if x is not None:
+                # follow a plain copy `_n = x`
+                d = ba.single_def(x)
+                if d and d[0] == "stmt" and d[3]["k"] == "use" and op_local(d[3]["op"]) is not None and not op_place(d[3]["op"])["p"]:
+                    x = op_local(d[3]["op"])
+                out.append((i, t["otherwise"], arms[value], x))
     return out
 
 
